@@ -33,7 +33,18 @@ def corpus(tier, seed):
             inputs.append({"cfg": c, "cands": ["A"], "ballots": [{"r": [["A"]], "w": [2, 1]}], "mode": "explore"})
         for c in rng.sample(EL.family_configs(fam, 4), min(12 if q else 60, len(EL.family_configs(fam, 4)))):
             inputs.append({"cfg": c, "cands": ["A", "B", "C", "D"], "ballots": [{"r": [["A"]], "w": [3, 1]}, {"r": [["B"]], "w": [1, 1]}], "mode": "explore"})
-    return EL.add_slow_slice(rng, inputs, 150 if q else 2000)
+    inputs = EL.add_slow_slice(rng, inputs, 150 if q else 2000)
+    # ranked ballots that also carry scores (a Ballot may hold both): a ranking rule accepts them and reads the ranking only, so the run
+    # must be the run of the same profile without the scores
+    r3 = random.Random(131 + seed)
+    for inp in r3.sample([i for i in inputs if "names" not in i and i["ballots"]], 200 if q else 3000):
+        s = dict(inp)
+        bl = [dict(b) for b in inp["ballots"]]
+        for b in r3.sample(bl, r3.randint(1, len(bl))):
+            b["s"] = [[c, [r3.randint(1, 3), 1]] for c in r3.sample(inp["cands"], r3.randint(1, len(inp["cands"])))]
+        s["ballots"], s["mixed"] = bl, True
+        inputs.append(s)
+    return inputs
 
 
 def run(tier, seed, replay=None):
